@@ -59,7 +59,7 @@ var (
 // inputs
 
 type hop struct {
-	Kind    string `json:"kind"` // write | mkpipe | rmpipe | truncate | restart
+	Kind    string `json:"kind"` // write | writeooo | mkpipe | rmpipe | truncate | restart
 	Part    int    `json:"part,omitempty"`
 	N       int    `json:"n,omitempty"`
 	Name    string `json:"name,omitempty"`
@@ -68,7 +68,7 @@ type hop struct {
 }
 
 type crashSpec struct {
-	Kind string `json:"kind"` // image | tindex-cut | stop-cut | pipesave-cut | snap-missing | snap-torn | tree-missing | tree-zero-intact | tree-zero | tree-half | pipeinfo-torn
+	Kind string `json:"kind"` // image | tindex-cut | stop-cut | pipesave-cut | mkpipe-cut | rmpipe-cut | snap-missing | snap-torn | tree-missing | tree-zero-intact | tree-zero | tree-half | pipeinfo-torn
 	K    int    `json:"k,omitempty"`
 	Len  string `json:"len,omitempty"`  // 0 | 1 | h | m | f
 	Pipe string `json:"pipe,omitempty"` // pipesave-cut, pipeinfo-torn
@@ -85,6 +85,8 @@ type scase struct {
 	// FlushMs: the chunk writers' flush period (default 2 ms). With a long period a stop right after an acknowledgement
 	// comes before the timer, so only a shutdown that syncs the journals keeps the events (finding F42, repaired)
 	FlushMs int `json:"flush_ms,omitempty"`
+	// Utf8: a case of the section utf8 (utf8.go) instead of Ops
+	Utf8 *utf8Case `json:"utf8,omitempty"`
 }
 
 // ---------------------------------------------------------------------------------------------
@@ -111,6 +113,8 @@ type part struct {
 	dest      bool
 	lastTs    int64
 	seq       int
+	// ooo: windows of out-of-order timestamps (far above everything written before and after) written by "writeooo"
+	ooo [][2]int64
 }
 
 type sim struct {
@@ -138,6 +142,7 @@ type sim struct {
 	// treeDamaged: the image has zero-filled / cut tree files AND the snapshot that refers to them (class of the repaired
 	// finding F47; cindex.init now forgets such roots, so the comparison with the model is strict again)
 	treeDamaged bool
+	noOoo       bool // a plain crash image after the out-of-order window: its first access is a read (lightFill on a non-monotone chunk = C02's class), the window probe does not apply
 	crashMode   bool // the running server was started on a crash image
 	dead        bool // the server refused to start / infrastructure problem: stop the case
 	sect        *vh.Section
@@ -194,7 +199,7 @@ func (s *sim) specFail(kind, what, impl, spec, model string, eq bool, finding st
 // fork: a copy of the simulation on a copy of the directory (the server is NOT started), with its own model driver
 func (s *sim) fork(dir string) *sim {
 	c := &sim{sec: s.sec, sect: s.sect, in: s.in, dir: dir, opts: s.opts, parts: map[string]*part{}, pipes: map[string]pipe.Pipe{},
-		deleted: map[string]bool{}, chunkDense: map[uint64]int{}, nextChunk: s.nextChunk, nextSrc: s.nextSrc, treeDamaged: s.treeDamaged, opSeq: s.opSeq}
+		deleted: map[string]bool{}, chunkDense: map[uint64]int{}, nextChunk: s.nextChunk, nextSrc: s.nextSrc, treeDamaged: s.treeDamaged, opSeq: s.opSeq, noOoo: s.noOoo}
 	for k, p := range s.parts {
 		q := *p
 		q.events = append([]ev{}, p.events...)
@@ -612,6 +617,89 @@ func (s *sim) doWrite(o hop, rng *vh.Rng, flush bool) (p *part, evs []ev) {
 	return p, evs
 }
 
+// doWriteOoo: a batch whose timestamps lie far above everything written to the partition before and after it (a client
+// with out-of-order timestamps); p.lastTs is not advanced, so later batches continue below the window
+func (s *sim) doWriteOoo(o hop) {
+	tags := partTags(o.Part)
+	p := s.parts[tags]
+	if p == nil {
+		return
+	}
+	base := p.lastTs + 1000000 + int64(len(p.ooo))*1000
+	var evs []ev
+	var aevs []*api.LogEvent
+	seq := p.seq
+	for i := 0; i < o.N; i++ {
+		e := ev{base + int64(i), fmt.Sprintf("p%d-%d", o.Part, seq)}
+		seq++
+		evs = append(evs, e)
+		aevs = append(aevs, &api.LogEvent{Timestamp: e.Ts, Message: e.Msg})
+	}
+	var wr api.WriteResult
+	err := s.srv.Client.Write(context.Background(), tags, "", aevs, &wr)
+	if err == nil {
+		err = wr.Err
+	}
+	if err != nil {
+		res.Note("%s: write to %s failed: %v", s.sec, tags, err)
+		return
+	}
+	p.seq = seq
+	p.ooo = append(p.ooo, [2]int64{base, base + int64(o.N) - 1})
+	s.opSeq++
+	p.lastWrite = s.opSeq
+	s.flushAndSync(p, evs)
+}
+
+// oooProbe: RANGE queries over each out-of-order window must return exactly its events. Applies where the hull was built from
+// ALL records of the chunk (the rebuild that a first write after a crash start sets in motion, and a clean restart after it)
+func (s *sim) oooProbe(how string) {
+	if s.noOoo || s.srv == nil {
+		return
+	}
+	for _, t := range s.sortedTags() {
+		p := s.parts[t]
+		for _, w := range p.ooo {
+			for _, r := range [][2]int64{{w[0], w[1]}, {w[0] - 5, w[1] + 5}} {
+				got, err := s.query(fmt.Sprintf("select from %s range [\"%d\":\"%d\"]", fromOf(p.tags), r[0], r[1]))
+				var want []ev
+				for _, e := range p.events {
+					if e.Ts >= r[0] && e.Ts <= r[1] {
+						want = append(want, e)
+					}
+				}
+				ans := s.model(fmt.Sprintf("range %s %d %d", vh.HxS(p.dense), r[0], r[1]), false)
+				vis, stale := "", false
+				for _, f := range strings.Fields(ans) {
+					if strings.HasPrefix(f, "vis=") {
+						vis = f[4:]
+					}
+					if f == "stale=1" {
+						stale = true
+					}
+				}
+				impl := tsList(got)
+				if err != nil {
+					impl = "error: " + err.Error()
+				}
+				eq := impl == vis
+				res.Dist(s.sect, "range-probe-out-of-order-window")
+				if !eq {
+					res.Mismatch(vh.Mismatch{Section: s.sec, Function: fmt.Sprintf("RANGE [%d:%d] (out-of-order window) over %s after %s", r[0], r[1], p.tags, how), Input: s.in, Impl: impl, Model: vis})
+				}
+				if err != nil || !sameEvs(got, want) {
+					finding := ""
+					if eq && stale && len(got) < len(want) {
+						finding = "F06"
+					}
+					s.specFail("hidden-event", fmt.Sprintf("RANGE [%d:%d] over partition %s after %s does not return the flushed events of the out-of-order window written between the snapshot and the crash", r[0], r[1], p.tags, how),
+						evsStr(got), evsStr(want), vis, eq, finding)
+				}
+			}
+		}
+	}
+}
+
 func (s *sim) flushAndSync(p *part, evs []ev) {
 	for try := 0; try < 200; try++ {
 		// flush explicitly instead of waiting for the writer's timer (which can be starved on a loaded machine)
@@ -822,6 +910,21 @@ func (s *sim) startImpl() string {
 	return fmt.Sprintf("ok parts=%s pipes=%s", hexList(tl), hexList(s.implPipeNames()))
 }
 
+// everS: a pipe whose position file is the registry file exists or existed
+func (s *sim) everS() bool {
+	for n := range s.pipes {
+		if pipe.VerifC07PipeFileName("", n) == "pipes.dat" {
+			return true
+		}
+	}
+	for n := range s.deleted {
+		if pipe.VerifC07PipeFileName("", n) == "pipes.dat" {
+			return true
+		}
+	}
+	return false
+}
+
 func splitCls(ans string) (string, map[string]bool) {
 	cls := map[string]bool{}
 	i := strings.Index(ans, " cls=")
@@ -867,6 +970,17 @@ func (s *sim) start(crashKind string) bool {
 			s.srv = nil
 		}
 		return false
+	}
+	// the proved invariant (`Persist.Inv`: memory consistent with disk), evaluated on the model's state: it must hold on every
+	// history the harness drives (outside F33's class, where `cex_reachable_pipe_s` shows that it does not)
+	if inv := s.model("inv", false); inv != "1" {
+		if cls["collision"] || s.everS() {
+			res.Dist(s.sect, "inv-broken-in-class-F33")
+		} else {
+			res.Mismatch(vh.Mismatch{Section: s.sec, Function: "the invariant Persist.Inv on the model's state after a start (" + crashKind + ")", Input: s.in, Impl: "1", Model: inv})
+		}
+	} else {
+		res.Dist(s.sect, "inv-holds-after-start")
 	}
 	// re-bind the real journal ids (they are stable) — nothing to do; remember class flags for the pipe check
 	s.checkPipeSet(cls, eq, crashKind)
@@ -1346,6 +1460,8 @@ func (s *sim) runOps(ops []hop, rng *vh.Rng) {
 				continue
 			}
 			s.doWrite(o, rng, true)
+		case "writeooo":
+			s.doWriteOoo(o)
 		case "mkpipe":
 			s.doMkPipe(o)
 		case "rmpipe":
@@ -1356,6 +1472,16 @@ func (s *sim) runOps(ops []hop, rng *vh.Rng) {
 			s.doDropPart(o)
 		case "restart":
 			s.restart(o, rng, nil, nil)
+		}
+	}
+	// the invariant on the model's state of the RUNNING server after the history
+	if !s.dead && s.srv != nil {
+		if inv := s.model("inv", false); inv == "1" {
+			res.Dist(s.sect, "inv-holds-after-history")
+		} else if s.everS() {
+			res.Dist(s.sect, "inv-broken-in-class-F33")
+		} else if inv == "0" {
+			res.Mismatch(vh.Mismatch{Section: s.sec, Function: "the invariant Persist.Inv on the model's state after the history", Input: s.in, Impl: "1", Model: inv})
 		}
 	}
 }
@@ -1566,6 +1692,66 @@ func runCrash(c scase, sec string, sect *vh.Section, rng *vh.Rng) {
 		if filepath.Base(fn) == "pipes.dat" {
 			kind = "image" // the position file IS the registry file: F33's class decides
 		}
+	case "mkpipe-cut", "rmpipe-cut":
+		// crash inside the metadata update of CREATE / DELETE PIPE (registry save through its temp file; DELETE then removes
+		// the position file): the step list is the model's (`opSteps`), the final registry content comes from really doing the
+		// operation on the base server
+		for n := range base.pipes {
+			if pipe.VerifC07PipeFileName("", n) == "pipes.dat" {
+				kind = "" // F33's class (position saves and registry saves share the file): a plain image instead
+			}
+		}
+		name := "zq"
+		if cs.Kind == "rmpipe-cut" {
+			name = cs.Pipe
+			if _, ok := base.pipes[name]; !ok {
+				kind = ""
+			}
+		}
+		if kind == "" {
+			res.Dist(sect, "crash:"+cs.Kind+":plain-image-instead")
+			v.model("crash", true)
+			kind = "image"
+			break
+		}
+		var stepsLine, cutLine string
+		if cs.Kind == "mkpipe-cut" {
+			stepsLine = base.model(fmt.Sprintf("steps.mkpipe %s - -", vh.HxS(name)), false)
+			base.doMkPipe(hop{Kind: "mkpipe", Name: name, Sel: "g=b"})
+			d, ok := base.pipes[name]
+			if !ok {
+				return
+			}
+			cutLine = fmt.Sprintf("cutmkpipe %s %s %s %d %s", vh.HxS(d.Name), vh.HxS(d.TagsCond), vh.HxS(d.FltCond), cs.K, cs.Len)
+		} else {
+			stepsLine = base.model("steps.rmpipe "+vh.HxS(name), false)
+			base.doRmPipe(hop{Kind: "rmpipe", Name: name})
+			if _, ok := base.pipes[name]; ok {
+				return
+			}
+			cutLine = fmt.Sprintf("cutrmpipe %s %d %s", vh.HxS(name), cs.K, cs.Len)
+		}
+		steps := strings.Fields(stepsLine)
+		after, err := ioutil.ReadFile(filepath.Join(base.dir, "pipes", "pipes.dat"))
+		if err != nil {
+			res.Note("%s: %v", sec, err)
+			return
+		}
+		if err := applySteps(pathIn(img), steps, cs.K, cs.Len, func(string) []byte { return after }); err != nil {
+			res.Note("%s: applying steps: %v", sec, err)
+			return
+		}
+		v.model(cutLine, true)
+		if cs.Kind == "rmpipe-cut" {
+			for i, st := range steps {
+				if strings.HasPrefix(st, "rename:") && cs.K > i {
+					// the registry without the pipe reached the disk (the acknowledgement did not): the pipe is gone
+					delete(v.pipes, name)
+					v.deleted[name] = true
+				}
+			}
+		}
+		res.Dist(sect, fmt.Sprintf("crash:%s:k=%d/%d", cs.Kind, cs.K, len(steps)))
 	case "snap-missing":
 		os.Remove(filepath.Join(img, "cindex", "cindex.dat"))
 		v.model("crash", true)
@@ -1643,6 +1829,9 @@ func runCrash(c scase, sec string, sect *vh.Section, rng *vh.Rng) {
 				return
 			}
 			cur.oracle(rng, "a graceful restart after a crash", ref)
+			if len(cs.Then) > 0 && cs.Then[0] == "write-first" {
+				cur.oooProbe("a crash, a first write and a graceful restart")
+			}
 		case "crash":
 			img2 := fmt.Sprintf("%s-%d", img, i)
 			defer os.RemoveAll(img2)
@@ -1652,6 +1841,7 @@ func runCrash(c scase, sec string, sect *vh.Section, rng *vh.Rng) {
 			n := cur.fork(img2)
 			defer n.close()
 			n.crashMode = true
+			n.noOoo = true
 			n.model("crash", true)
 			if !n.start("crash") {
 				return
@@ -1692,9 +1882,11 @@ func (s *sim) writeFirst(rng *vh.Rng, kind string) {
 		s.waitPipes()
 		s.syncPipes()
 	}
-	// the rebuild runs in the background: poll generously (5 s) until the events written before the crash are all visible
-	// to a RANGE query that ends before the new batch; whatever the outcome, the oracle below reports
-	deadline := time.Now().Add(5 * time.Second)
+	// the rebuild runs in the background (event-driven, no timer in the rebuilder: milliseconds on an idle machine): poll until
+	// the events written before the crash are all visible to a RANGE query that ends before the new batch. The deadline is
+	// only reached when the rebuild does not happen at all (20 s: the machine is shared, load averages of 50..100 occur);
+	// whatever the outcome, the oracle below reports
+	deadline := time.Now().Add(20 * time.Second)
 	for _, x := range pres {
 		first := x.p.events[0].Ts
 		var want int
@@ -1707,7 +1899,7 @@ func (s *sim) writeFirst(rng *vh.Rng, kind string) {
 			got, err := s.query(fmt.Sprintf("select from %s range [\"%d\":\"%d\"]", fromOf(x.p.tags), first-2, x.lastTs))
 			if (err == nil && len(got) == want) || time.Now().After(deadline) {
 				if err != nil || len(got) != want {
-					res.Dist(s.sect, "write-first:not-visible-after-5s")
+					res.Dist(s.sect, "write-first:not-visible-after-20s")
 				}
 				break
 			}
@@ -1715,6 +1907,7 @@ func (s *sim) writeFirst(rng *vh.Rng, kind string) {
 		}
 	}
 	s.oracle(rng, "a crash ("+kind+") and a first write", nil)
+	s.oooProbe("a crash (" + kind + ") and a first write")
 }
 
 // ---------------------------------------------------------------------------------------------
@@ -1775,7 +1968,7 @@ func genGraceful(rng *vh.Rng) scase {
 }
 
 // tree-zero / tree-half exist as replayable kinds but are not generated: see design-notes/C07.md (damaged tree files give wrong RANGE answers; C02's tree)
-var crashKinds = []string{"image", "image", "tindex-cut", "tindex-cut", "stop-cut", "pipesave-cut", "snap-missing", "snap-torn", "tree-missing", "tree-zero-intact", "stop-cut", "tree-zero", "tree-half"}
+var crashKinds = []string{"image", "image", "tindex-cut", "tindex-cut", "stop-cut", "pipesave-cut", "snap-missing", "snap-torn", "tree-missing", "tree-zero-intact", "stop-cut", "tree-zero", "tree-half", "mkpipe-cut", "rmpipe-cut"}
 var lenClasses = []string{"0", "1", "h", "m", "f"}
 
 func genCrash(rng *vh.Rng, i int) scase {
@@ -1803,6 +1996,12 @@ func genCrash(rng *vh.Rng, i int) scase {
 		cs.K, cs.Len = rng.Range(0, 2), rng.PickS(lenClasses)
 		cs.Pipe = rng.PickS(pipeNames)
 		c.Ops = append([]hop{{Kind: "mkpipe", Name: cs.Pipe, Sel: "g=a"}, {Kind: "write", Part: 0, N: 5}}, c.Ops...)
+	case "mkpipe-cut":
+		cs.K, cs.Len = rng.Range(0, 4), rng.PickS(lenClasses)
+	case "rmpipe-cut":
+		cs.K, cs.Len = rng.Range(0, 5), rng.PickS(lenClasses)
+		cs.Pipe = rng.PickS([]string{"t", "pa", "a_b"})
+		c.Ops = append(c.Ops, hop{Kind: "mkpipe", Name: cs.Pipe, Sel: "g=a"}, hop{Kind: "write", Part: 0, N: 5})
 	case "snap-torn":
 		cs.Len = rng.PickS(lenClasses[:4])
 		c.Ops = append(c.Ops, hop{Kind: "restart", Quiesce: true}, hop{Kind: "write", Part: 0, N: 3})
@@ -1859,6 +2058,12 @@ func exhaustiveCuts() []scase {
 		// … and for a STALE snapshot (the base history ends with a clean restart and growth): a plain image
 		scase{ChunkSize: 4000, Ops: base, Crash: &crashSpec{Kind: "image", Then: []string{"write-first", "restart"}}},
 		scase{ChunkSize: 700, Ops: base, Crash: &crashSpec{Kind: "image", Then: []string{"write-first", "crash"}}})
+	// … with an OUT-OF-ORDER window between the snapshot and the crash (timestamps far above the snapshot's hull and above the
+	// first batch after the restart): only the rebuild that the stale entry's first write sets in motion makes it visible
+	ooo := []hop{{Kind: "write", Part: 0, N: 5}, {Kind: "write", Part: 1, N: 4}, {Kind: "restart", Quiesce: true}, {Kind: "writeooo", Part: 0, N: 3}, {Kind: "write", Part: 1, N: 2}}
+	cs = append(cs,
+		scase{ChunkSize: 4000, Ops: ooo, Crash: &crashSpec{Kind: "image", Then: []string{"write-first", "restart"}}},
+		scase{ChunkSize: 20000, Ops: append(append([]hop{}, ooo...), hop{Kind: "writeooo", Part: 1, N: 2}), Crash: &crashSpec{Kind: "image", Then: []string{"write-first", "restart", "restart"}}})
 	// the step lists come from the model at run time; a prefix class matters only where step k is a write
 	for k := 0; k <= 5; k++ {
 		for _, l := range lenClasses {
@@ -1882,6 +2087,18 @@ func exhaustiveCuts() []scase {
 				continue
 			}
 			cs = append(cs, scase{ChunkSize: 4000, Ops: base, Crash: &crashSpec{Kind: "pipesave-cut", K: k, Len: l, Pipe: "t"}})
+		}
+	}
+	// every cut of the metadata updates of CREATE PIPE (3 steps) and DELETE PIPE (4 steps)
+	for k := 0; k <= 4; k++ {
+		for _, l := range lenClasses {
+			if k != 1 && l != "f" {
+				continue
+			}
+			if k <= 3 {
+				cs = append(cs, scase{ChunkSize: 4000, Ops: base, Crash: &crashSpec{Kind: "mkpipe-cut", K: k, Len: l}})
+			}
+			cs = append(cs, scase{ChunkSize: 4000, Ops: base, Crash: &crashSpec{Kind: "rmpipe-cut", K: k, Len: l, Pipe: "t"}})
 		}
 	}
 	return cs
@@ -1965,6 +2182,8 @@ func sectionUnit(rng *vh.Rng) {
 		check(filepath.Join(s.dir, "pipes", "pipet.dat"), func() interface{} { return &map[string]*ppd{} }, func() interface{} { return &[]pipe.Pipe{} })
 		s.close()
 	}
+	// (c) what encoding/json makes of a string
+	unitSanitize(sec, rng.Fork("sanitize"))
 	res.Done(sec)
 }
 
@@ -1990,7 +2209,11 @@ func runCases(secName string, sect *vh.Section, cases []scase, seed *vh.Rng, wor
 				b, _ := json.Marshal(c)
 				key = string(b)
 			}
-			if c.Crash != nil {
+			if c.Utf8 != nil {
+				b, _ := json.Marshal(c)
+				key = string(b)
+				runUtf8(c, secName, sect)
+			} else if c.Crash != nil {
 				runCrash(c, secName, sect, r)
 			} else {
 				runGraceful(c, secName, sect, r)
@@ -2008,7 +2231,7 @@ func corpusCases() []scase {
 			Section string `json:"section"`
 			Input   scase  `json:"input"`
 		}
-		if vh.ReadJSON(f, &rp) == nil && len(rp.Input.Ops) > 0 {
+		if vh.ReadJSON(f, &rp) == nil && (len(rp.Input.Ops) > 0 || rp.Input.Utf8 != nil) {
 			n := 1
 			if rp.Input.Rounds > 1 {
 				n = rp.Input.Rounds
@@ -2263,6 +2486,20 @@ func main() {
 	}
 	runCases("graceful", gs, gcases, gr, 8)
 	res.Done(gs)
+
+	us := res.Section("utf8", "system-correspondence",
+		"stored strings through encoding/json: partitions whose tag lines and pipes whose names contain valid multi-byte UTF-8, invalid bytes, surrogate and over-long encodings (5 fixed + generated cases); acknowledged writes / CREATE PIPE, graceful Stop/Start; the start line (started/refused, tag lines, pipe names) is compared with the model (codec = contract instance behind Persist.sanitize); SPEC: the server starts, every acknowledged tag line is in the tag index, every pipe is found under its name")
+	ur := rng.Fork("utf8")
+	ucases := utf8Fixed()
+	nu := 6
+	if args.Thorough {
+		nu = 30
+	}
+	for i := 0; i < nu; i++ {
+		ucases = append(ucases, genUtf8(ur))
+	}
+	runCases("utf8", us, ucases, ur, 6)
+	res.Done(us)
 
 	xs := res.Section("crash", "system-correspondence",
 		"constructed crash images of a running server after a generated history: plain copy (incl. after a clean restart and growth = stale snapshot), every cut of the tag-index save (steps taken from the model's regenerated step list; prefixes 0,1,half,len-1,len), of the shutdown saves of pipes.dat and cindex.dat, of a position save, snapshot missing/torn, tree files missing/zero-filled/cut in half (with and without snapshot); a second in-process server is started on each image and checked with the same oracle (acknowledged partitions and events, RANGE = filter on monotone partitions, acknowledged pipes present); then 0..2 further crashes/graceful restarts; start/refuse, partition set, pipe set and RANGE answers compared with the model")
